@@ -207,7 +207,9 @@ def activation_revalidates(ctx):
                     bad = 'invalid mapping is activated (returns %s, ObjNum stored: %s)' % (t.ret, bool(stored))
             if bad:
                 ctx.ob(P, 'RF2-pdo-activate', f, site, None)
-                ctx.find(P, 'RF2-pdo-activate', f, 'revalidate:%d:%d:%d' % (cnt, bits, found), m.loc(f, m.funcs[f].line),
+                # RF6 proves the Map[] / Size[] subscripts of the transmit / receive loops under "ObjNum <= 8 and only for a
+                # validated mapping": publishing ObjNum for a refused mapping breaks that premise (C01)
+                ctx.find(P + ['C01', 'C12', 'C13'], 'RF2-pdo-activate', f, 'revalidate:%d:%d:%d' % (cnt, bits, found), m.loc(f, m.funcs[f].line),
                          '%s: %s' % (site, bad))
             else:
                 ctx.ob(P, 'RF2-pdo-activate', f, site, 'activated' if ok else 'refused before ObjNum is stored')
